@@ -172,6 +172,13 @@ class Velocity(Spec):
         fa, fb = a.self.attrs["fields"], b.self.attrs["fields"]
         return [(f"field {k} unchanged", fa[k], fb[k]) for k in ("u", "v", "dU", "dV")] + [("X unchanged", a.X, b.X), ("Y unchanged", a.Y, b.Y)]
 
+    def ensures(self, cx, a, result):
+        from pyvc.spec import own_index_only
+
+        pp = z3.Int("p_own")
+        ok = isinstance(result, tuple) and all(isinstance(r, Arr) and own_index_only(r.fn(pp), pp, {"X", "Y", "Z", "fK", "fA"}) for r in result)
+        return [("C14: the velocity of particle p depends on particle p's own position, depth level and weight only", ok)]
+
 
 class ForceParticles(Spec):
     """force_particles: scalar fields = own cell at level K; velocity = staggered trilinear sample, sign flipped iff reversed."""
